@@ -690,10 +690,8 @@ class DMSAngle(object):
         :return: HP Notation (DDD.MMSSSS)
         :rtype: float
         """
-        if self.positive:
-            return self.degree + (self.minute / 100) + (self.second / 10000)
-        else:
-            return -(self.degree + (self.minute / 100) + (self.second / 10000))
+        # via dec2hp, which carries seconds of 59.999... into the minutes
+        return dec2hp(self.dec())
 
     def hpa(self):
         """
@@ -892,11 +890,8 @@ class DDMAngle(object):
         :return: HP Notation (DDD.MMSSSS)
         :rtype: float
         """
-        minute_int, second = divmod(self.minute, 1)
-        if self.positive:
-            return self.degree + (minute_int / 100) + (second * 0.006)
-        else:
-            return -(self.degree + (minute_int / 100) + (second * 0.006))
+        # via dec2hp, which carries seconds of 59.999... into the minutes
+        return dec2hp(self.dec())
 
     def hpa(self):
         """
@@ -1242,11 +1237,8 @@ def dd2sec(dd):
 
 
 def dec2hp_v(dec):
-    minute, second = divmod(abs(dec) * 3600, 60)
-    degree, minute = divmod(minute, 60)
-    hp = degree + (minute / 100) + (second / 10000)
-    hp[dec <= 0] = -hp[dec <= 0]
-    return hp
+    # element-wise dec2hp: summing the fields as floats can give seconds = 60
+    return np.vectorize(dec2hp, otypes=[float])(dec)
 
 
 def hp2dec_v(hp):
